@@ -704,6 +704,8 @@ class Calls(Interp):
             return VInt(c.count)
         if isinstance(v, VStr): return VInt(z3.Length(v.t))
         if isinstance(v, VTuple): return VInt(len(v.items))
+        if isinstance(v, VRec) and v.ty.name in getattr(self.reg, "namedtuples", ()):
+            return VInt(len(v.ty.fields))   # a collections.namedtuple: its length is its number of fields
         raise Unsupported("len of %r" % (v,))
 
     def bi_enumerate(self, args, kwargs, node):
